@@ -210,8 +210,22 @@ impl Expr {
                     BinaryOperator::BitwiseAnd => Ok(left & right),
                     BinaryOperator::BitwiseOr => Ok(left | right),
                     BinaryOperator::BitwiseXor => Ok(left ^ right),
-                    BinaryOperator::ShiftLeft => Ok(left << right),
-                    BinaryOperator::ShiftRight => Ok(left >> right),
+                    BinaryOperator::ShiftLeft | BinaryOperator::ShiftRight => {
+                        let shifted = match u32::try_from(right) {
+                            Ok(count) => match binary.operator {
+                                BinaryOperator::ShiftLeft => left.checked_shl(count),
+                                _ => left.checked_shr(count),
+                            },
+                            Err(_) => None,
+                        };
+                        match shifted {
+                            Some(value) => Ok(value),
+                            None => Err(ExprRunError::ArithmeticError(format!(
+                                "Shift count out of range (0 - 63): {:?} by {:?}",
+                                binary.left, binary.right
+                            ))),
+                        }
+                    }
                     BinaryOperator::LessThan => Ok((left < right) as i64),
                     BinaryOperator::LessOrEqual => Ok((left <= right) as i64),
                     BinaryOperator::GreaterThan => Ok((left > right) as i64),
